@@ -596,6 +596,16 @@ def make_gen(rng):
         return ['BulkUpdateRecord', '_grist_Tables_column', [x['id'] for x in cs], {'colId': names}]
       return None
 
+    def bundle(self, e, max_len=3):
+      # a quarter of the bundles end in an action that fails, so that schema and metadata changes are rolled back
+      if self.r.random() < 0.25:
+        acts = [self.action(e, exclude=('invalid', 'addrec', 'updrec', 'rmrec', 'tempids', 'upsert'))
+                for _ in range(self.r.randint(1, 2))]
+        bad = histgen.HistGen.gen(self, 'invalid', histgen.Meta(e))
+        self.stats['failing-tail'] += 1
+        return acts + ([bad] if bad else [['RemoveRecord', 'NoSuchTable', 1]])
+      return histgen.HistGen.bundle(self, e, max_len)
+
   return C08Gen(rng, weights=WEIGHTS)
 
 
@@ -748,7 +758,14 @@ def correspond(ctx):
               sample={'user_action': g['name'], 'bundle': bundle, 'steps': kinds} if len(kinds) > 1 else None)
     if uncovered and not raw_ok:
       uncovered_seen.append((uncovered, copy.deepcopy(history), copy.deepcopy(bundle)))
+  found = ctx._c08_oracle = []
   def on_bundle(e, history, bundle, failed):
+    d = oracle(e)
+    ctx.count(('bundle', len(history), repr(bundle)), nontrivial=True, kind='oracle:' + ('failed' if failed else 'ok'))
+    if d:
+      found.append(('schema-mismatch-after-failure' if failed else 'schema-mismatch', d,
+                    {'history': copy.deepcopy(history), 'bundle': copy.deepcopy(bundle)}))
+      raise StopHistory()
     if ctx.rng.random() < 0.3:
       t = e.fetch_table('_grist_Tables')
       c = e.fetch_table('_grist_Tables_column')
@@ -757,11 +774,14 @@ def correspond(ctx):
                 c.columns['type'][i], bool(c.columns['isFormula'][i]), c.columns['formula'][i],
                 int(c.columns['reverseCol'][i] or 0)) for i, rid in enumerate(c.row_ids)]
       add_build(trows, crows, 'real')
-  nh, nb = ctx.n(40, 400), ctx.n(10, 14)
+  nh, nb = ctx.n(12, 300), ctx.n(10, 14)
   stats = collections.Counter()
   for i in range(nh):
-    gen = run_history(ctx.seed * 7919 + i, nb, on_group=on_group, on_bundle=on_bundle)
-    stats.update(gen.stats)
+    try:
+      gen = run_history(ctx.seed * 7919 + i, nb, on_group=on_group, on_bundle=on_bundle)
+      stats.update(gen.stats)
+    except StopHistory:
+      pass
   for k, v in sorted(stats.items()):
     ctx.bump('gen:' + k, v)
   ctx._c08_uncovered = uncovered_seen
@@ -774,3 +794,143 @@ def correspond(ctx):
                '(schema doc actions, resulting schema/metadata, or a precondition)', repr(info[i])[:3000])
   ctx.extra['tie_user_actions'] = len(cases)
   ctx.extra['build_cases'] = len(bcases)
+
+
+# ------------------------------------------------------------------------------------------------
+# search: the property's oracle on the implementation
+
+DIRECT_KINDS = ('direct-add-column-record', 'direct-add-table-record', 'direct-parentId-update',
+                'direct-replace-table-data')
+
+
+def direct_action(kind, rng, e):
+  """A record action applied directly to a metadata table (no coupled schema action exists for it)."""
+  from harness import histgen
+  m = histgen.Meta(e)
+  ts = m.user_tables()
+  if not ts:
+    return None
+  t = rng.choice(ts)
+  cols = m.visible_cols(t['id'])
+  if kind == 'direct-add-column-record':
+    if rng.random() < 0.3:
+      return ['BulkAddRecord', '_grist_Tables_column', [rng.randint(500, 600)],
+              {'parentId': [rng.choice([t['id'], 77])], 'colId': ['zz'], 'type': ['Text']}]
+    return ['AddRecord', '_grist_Tables_column', None, {'parentId': t['id'], 'colId': 'Zz', 'type': 'Text'}]
+  if kind == 'direct-add-table-record':
+    return ['AddRecord', '_grist_Tables', None, {'tableId': 'Zed'}]
+  if kind == 'direct-parentId-update':
+    if not cols:
+      return None
+    others = [x['id'] for x in ts if x['id'] != t['id']] + [0]
+    return ['UpdateRecord', '_grist_Tables_column', rng.choice(cols)['id'], {'parentId': rng.choice(others)}]
+  if kind == 'direct-replace-table-data':
+    return ['ReplaceTableData', rng.choice(['_grist_Tables_column', '_grist_Tables']), [], {}]
+  raise ValueError(kind)
+
+
+def build_doc(history):
+  """A document on which the bundles of `history` were applied in order (failures are rolled back by the engine)."""
+  Gm = G()
+  e, _ = Gm.new_doc()
+  for b in history:
+    try:
+      Gm.apply(e, copy.deepcopy(b))
+    except Exception:
+      Gm.clean(e)
+  return e
+
+
+def replay(ctx, w):
+  Gm = G()
+  e = build_doc(w.get('history', []))
+  pre = oracle(e)
+  if pre:
+    return None if w.get('strict') else 'already before the bundle: ' + pre
+  try:
+    Gm.apply(e, copy.deepcopy(w['bundle']))
+    failed = ''
+  except Exception as ex:
+    failed = ' (the bundle raised %s and was rolled back)' % type(ex).__name__
+  d = oracle(e)
+  return (d + failed) if d else None
+
+
+def search(ctx):
+  from harness import histrun
+  Gm = G()
+  # (1) the shared history run
+  res = histrun.shared_run(ctx.tier, ctx.seed, ctx.n(20, 200), 10)
+  for k, v in sorted(res.get('stats', {}).items()):
+    ctx.bump('shared:' + k, v)
+  for iss in res['issues']:
+    if iss['prop'] == 'C08':
+      ctx.violation(iss['kind'], iss['what'], iss['replay'])
+    elif iss['prop'] == 'HARNESS':
+      ctx.notes.append('shared history run: harness exception ' + iss['what'][-200:])
+  ctx.count(('shared', res['stats'].get('bundles', 0)), nontrivial=True, kind='shared-run')
+  # (2) the histories of this check (recorded by correspond, or run now)
+  found = getattr(ctx, '_c08_oracle', None)
+  if found is None:
+    found = []
+    def on_bundle(e, history, bundle, failed):
+      d = oracle(e)
+      ctx.count(('bundle', len(history), repr(bundle)), nontrivial=True, kind='oracle:' + ('failed' if failed else 'ok'))
+      if d:
+        found.append(('schema-mismatch-after-failure' if failed else 'schema-mismatch', d,
+                      {'history': copy.deepcopy(history), 'bundle': copy.deepcopy(bundle)}))
+        raise StopHistory()
+    for i in range(ctx.n(12, 300)):
+      try:
+        run_history(ctx.seed * 7919 + i, ctx.n(10, 14), on_bundle=on_bundle)
+      except StopHistory:
+        pass
+  for kind, what, rep in found[:20]:
+    ctx.violation(kind, what, rep)
+  for uncovered, history, bundle in (getattr(ctx, '_c08_uncovered', None) or [])[:10]:
+    ctx.violation('uncoupled-doc-action',
+                  'doc actions outside every coupled step of the model: %r' % (uncovered[:3],),
+                  {'history': history, 'bundle': bundle, 'strict': True})
+  # (3) record actions applied directly to the metadata tables
+  for i in range(ctx.n(6, 60)):
+    rng = random.Random(ctx.seed * 104729 + i)
+    gen = make_gen(rng)
+    history = [[gen.gen_addtable(None)]]
+    e = build_doc(history)
+    for _ in range(rng.randint(0, 4)):
+      b = gen.bundle(e)
+      try:
+        Gm.apply(e, copy.deepcopy(b))
+        gen.after_bundle(e)
+        history.append(b)
+      except Exception:
+        Gm.clean(e)
+    if oracle(e):
+      continue
+    kind = DIRECT_KINDS[i % len(DIRECT_KINDS)]
+    a = direct_action(kind, rng, e)
+    if a is None:
+      continue
+    w = {'history': history, 'bundle': [a]}
+    d = replay(ctx, w)
+    ctx.count(('direct', i), nontrivial=True, kind=kind + (':violates' if d else ':holds'))
+    if d:
+      ctx.violation(kind, '%r: %s' % (a, d), minimise(ctx, w))
+
+
+class StopHistory(Exception):
+  pass
+
+
+def minimise(ctx, w):
+  from harness import histgen
+  hist = w['history']
+  if len(hist) > 1:
+    try:
+      small = histgen.shrink_list(hist, lambda h: replay(ctx, {'history': h, 'bundle': w['bundle']}) is not None,
+                                  max_steps=30)
+      if replay(ctx, {'history': small, 'bundle': w['bundle']}):
+        return {'history': small, 'bundle': w['bundle']}
+    except Exception:
+      pass
+  return w
